@@ -1,7 +1,848 @@
-//! C20 — not implemented yet (stub).
-use crate::engine::Args;
+//! C20 — a configuration file means exactly what it declares, however large (DESIGN §4 C20).
+//!
+//! Abstract configuration -> TOML text (own printer) -> Config::load_from_path ->
+//! generate_config_messages -> fresh ConfigState; compared with the expected objects computed
+//! from the abstract configuration (never from the TOML, never by sozu code).
 
-pub fn run(_args: &Args) -> i32 {
-    println!("INCONCLUSIVE: C20 has no check yet");
-    2
+use std::collections::{BTreeMap, BTreeSet};
+use std::io::Write;
+
+use proptest::prelude::*;
+use serde::{Deserialize, Serialize};
+use sozu_command_lib::{config::Config, proto::command::Request, state::ConfigState};
+
+use crate::{
+    engine::{self, Args, CaseReport, CheckResult, Evidence, pick_idx},
+    gens::{certs, cmd},
+    model::state::{first_diff, projection},
+};
+
+const ADDRS: &[&str] = &[
+    "127.0.0.1:8080",
+    "127.0.0.1:8443",
+    "127.0.0.1:9090",
+    "[::1]:8080",
+    "[::1]:8443",
+    "0.0.0.0:5353",
+    "10.2.0.1:80",
+    "[2001:db8::1]:443",
+    "127.0.0.2:7000",
+    "127.0.0.2:7001",
+];
+const HOSTS: &[&str] = &["a.x.com", "b.x.com", "*.x.com", "x.com", "svc.internal", "/[ab]+/.x.com"];
+const PATHS: &[&str] = &["", "/", "/api", "/api/v1", "/static"];
+
+#[derive(Clone, Debug, Serialize, Deserialize)]
+pub struct Listener {
+    /// 0 http, 1 https, 2 tcp, 3 udp
+    pub proto: u8,
+    pub addr: usize,
+    pub expect_proxy: Option<bool>,
+    pub front_timeout: Option<u32>,
+    pub back_timeout: Option<u32>,
+    pub sticky_name: Option<String>,
+    /// https only: alpn list
+    pub alpn: Option<Vec<String>>,
+    /// https only: default certificate (fixture index)
+    pub default_cert: Option<usize>,
+}
+
+#[derive(Clone, Debug, Serialize, Deserialize)]
+pub struct Frontend {
+    /// index into the config's listeners, or None for an address without a declared listener
+    pub listener: Option<usize>,
+    /// used when `listener` is None
+    pub free_addr: usize,
+    pub host: usize,
+    pub path: usize,
+    /// None = absent (PREFIX default), 0 PREFIX, 1 REGEX, 2 EQUALS
+    pub path_type: Option<u8>,
+    pub method: Option<String>,
+    /// None absent (TREE default), 0 PRE, 1 POST, 2 TREE
+    pub position: Option<u8>,
+    pub tags: bool,
+    /// fixture certificate (used on https listeners / to make an implicit https listener)
+    pub cert: Option<usize>,
+    pub redirect: Option<u8>,
+}
+
+#[derive(Clone, Debug, Serialize, Deserialize)]
+pub struct Backend {
+    pub ip_last: u8,
+    pub port: u16,
+    pub id: Option<String>,
+    pub weight: Option<u8>,
+    pub sticky: Option<String>,
+    pub backup: Option<bool>,
+}
+
+#[derive(Clone, Debug, Serialize, Deserialize)]
+pub struct Cluster {
+    pub tcp: bool,
+    pub lb: u8,
+    pub sticky_session: Option<bool>,
+    pub https_redirect: Option<bool>,
+    pub http2: Option<bool>,
+    pub send_proxy: Option<bool>,
+    pub frontends: Vec<Frontend>,
+    pub backends: Vec<Backend>,
+}
+
+#[derive(Clone, Debug, Serialize, Deserialize)]
+pub struct Case {
+    pub buffer_size: Option<u64>,
+    pub activate: Option<bool>,
+    pub listeners: Vec<Listener>,
+    pub clusters: Vec<Cluster>,
+    /// 0 = valid file; otherwise the constraint-violating neighbour to apply
+    pub break_with: u8,
+}
+
+fn listener_strategy() -> impl Strategy<Value = Listener> {
+    (
+        0u8..4,
+        any::<u32>(),
+        proptest::option::of(any::<bool>()),
+        proptest::option::of(1u32..200),
+        proptest::option::of(1u32..200),
+        proptest::option::of(Just("MYSTICKY".to_string())),
+        proptest::option::of(prop_oneof![
+            Just(vec!["h2".to_string(), "http/1.1".to_string()]),
+            Just(vec!["http/1.1".to_string()])
+        ]),
+        proptest::option::of(0usize..certs::BANK.len()),
+    )
+        .prop_map(|(proto, a, ep, ft, bt, sn, alpn, dc)| Listener {
+            proto,
+            addr: pick_idx(a, ADDRS.len()),
+            expect_proxy: ep,
+            front_timeout: ft,
+            back_timeout: bt,
+            sticky_name: sn,
+            alpn,
+            default_cert: dc,
+        })
+}
+
+fn frontend_strategy() -> impl Strategy<Value = Frontend> {
+    (
+        prop_oneof![6 => any::<u32>().prop_map(Some), 1 => Just(None)],
+        any::<u32>(),
+        any::<u32>(),
+        any::<u32>(),
+        proptest::option::of(0u8..3),
+        proptest::option::of(prop_oneof![Just("GET".to_string()), Just("POST".to_string())]),
+        proptest::option::of(0u8..3),
+        any::<bool>(),
+        proptest::option::weighted(0.6, 0usize..certs::BANK.len()),
+        proptest::option::weighted(0.2, 0u8..3),
+    )
+        .prop_map(|(l, fa, h, p, pt, m, pos, tags, cert, redirect)| Frontend {
+            listener: l.map(|x| x as usize),
+            free_addr: pick_idx(fa, ADDRS.len()),
+            host: pick_idx(h, HOSTS.len()),
+            path: pick_idx(p, PATHS.len()),
+            path_type: pt,
+            method: m,
+            position: pos,
+            tags,
+            cert,
+            redirect,
+        })
+}
+
+fn backend_strategy() -> impl Strategy<Value = Backend> {
+    (
+        1u8..20,
+        prop_oneof![Just(8080u16), Just(9000u16), 1024u16..1100],
+        proptest::option::weighted(0.4, "[a-z]{1,4}"),
+        proptest::option::of(1u8..=255),
+        proptest::option::weighted(0.2, Just("st".to_string())),
+        proptest::option::weighted(0.3, any::<bool>()),
+    )
+        .prop_map(|(ip_last, port, id, weight, sticky, backup)| Backend { ip_last, port, id, weight, sticky, backup })
+}
+
+fn cluster_strategy(max_fronts: usize, max_backends: usize) -> impl Strategy<Value = Cluster> {
+    (
+        prop::bool::weighted(0.25),
+        0u8..6,
+        proptest::option::of(any::<bool>()),
+        proptest::option::of(any::<bool>()),
+        proptest::option::of(any::<bool>()),
+        proptest::option::of(any::<bool>()),
+        prop::collection::vec(frontend_strategy(), 0..max_fronts),
+        prop::collection::vec(backend_strategy(), 0..max_backends),
+    )
+        .prop_map(|(tcp, lb, ss, hr, h2, sp, frontends, backends)| Cluster {
+            tcp,
+            lb,
+            sticky_session: ss,
+            https_redirect: hr,
+            http2: h2,
+            send_proxy: sp,
+            frontends,
+            backends,
+        })
+}
+
+pub fn strategy() -> impl Strategy<Value = Case> {
+    // size classes: small, medium, and large (crossing 255 / 256 / 512 generated messages)
+    let sized = prop_oneof![
+        6 => (0usize..5, 2usize..6, 2usize..5),
+        3 => (2usize..12, 3usize..10, 3usize..8),
+        1 => (20usize..60, 4usize..12, 3usize..10),
+    ];
+    sized.prop_flat_map(|(nclusters, max_f, max_b)| {
+        (
+            proptest::option::weighted(0.3, prop_oneof![Just(16393u64), Just(32768u64), Just(20000u64)]),
+            proptest::option::of(any::<bool>()),
+            prop::collection::vec(listener_strategy(), 0..6),
+            prop::collection::vec(cluster_strategy(max_f, max_b), nclusters..=nclusters),
+            prop_oneof![7 => Just(0u8), 3 => 1u8..8],
+        )
+            .prop_map(|(buffer_size, activate, listeners, clusters, break_with)| Case {
+                buffer_size,
+                activate,
+                listeners,
+                clusters,
+                break_with,
+            })
+    })
+}
+
+// ------------------------------------------------------------------ normalisation to a *valid* abstract config
+
+/// Resolved frontend: what the file declares, after the generator's raw choices were made sound.
+#[derive(Clone, Debug)]
+struct RFront {
+    addr: String,
+    /// 0 http, 1 https, 2 tcp, 3 udp
+    kind: u8,
+    host: String,
+    path: String,
+    path_type: Option<u8>,
+    method: Option<String>,
+    position: Option<u8>,
+    tags: bool,
+    cert: Option<usize>,
+    redirect: Option<u8>,
+}
+
+#[derive(Clone, Debug)]
+struct Resolved {
+    listeners: Vec<Listener>,
+    /// per cluster: (tcp?, frontends, backends)
+    clusters: Vec<(Cluster, Vec<RFront>, Vec<Backend>)>,
+    /// addresses used by frontends without a declared listener -> kind
+    implicit: BTreeMap<String, u8>,
+}
+
+/// Make the raw case a valid configuration by construction (drop what would be invalid), so that
+/// `break_with == 0` cases are files the loader must accept.
+fn resolve(case: &Case) -> Resolved {
+    // unique listener addresses
+    let mut seen = BTreeSet::new();
+    let mut listeners = vec![];
+    for l in &case.listeners {
+        if seen.insert(l.addr) {
+            let mut l = l.clone();
+            // public_address is not generated, so expect_proxy is always compatible
+            if l.proto != 1 {
+                l.alpn = None;
+                l.default_cert = None;
+            }
+            if l.proto >= 2 {
+                l.sticky_name = None;
+            }
+            if l.proto == 3 {
+                l.expect_proxy = None;
+            }
+            listeners.push(l);
+        }
+    }
+    let kind_of = |addr: usize, listeners: &[Listener]| listeners.iter().find(|l| l.addr == addr).map(|l| l.proto);
+    let mut implicit: BTreeMap<String, u8> = BTreeMap::new();
+    let mut used_keys: BTreeSet<String> = BTreeSet::new();
+    let mut tcp_addr_owner: BTreeSet<String> = BTreeSet::new();
+    let mut clusters = vec![];
+    for c in &case.clusters {
+        let mut fronts = vec![];
+        // a TCP cluster must not mix expect_proxy and non-expect_proxy listeners
+        let mut tcp_expect: Option<bool> = None;
+        for f in &c.frontends {
+            let addr_idx = match f.listener {
+                Some(i) if !listeners.is_empty() => listeners[i % listeners.len()].addr,
+                _ => f.free_addr,
+            };
+            let addr = ADDRS[addr_idx].to_string();
+            let declared = kind_of(addr_idx, &listeners);
+            let kind = declared.or_else(|| implicit.get(&addr).copied());
+            if c.tcp {
+                let k = match kind {
+                    Some(2) | Some(3) => kind.unwrap(),
+                    Some(_) => continue, // http(s) address: invalid for a tcp cluster
+                    None => 2,
+                };
+                // one tcp/udp frontend per address overall (an address serves one cluster)
+                if !tcp_addr_owner.insert(addr.clone()) {
+                    continue;
+                }
+                let ep = listeners.iter().find(|l| l.addr == addr_idx).and_then(|l| l.expect_proxy).unwrap_or(false);
+                match tcp_expect {
+                    None => tcp_expect = Some(ep),
+                    Some(x) if x != ep => {
+                        tcp_addr_owner.remove(&addr);
+                        continue;
+                    }
+                    _ => {}
+                }
+                if declared.is_none() {
+                    implicit.insert(addr.clone(), 2);
+                }
+                fronts.push(RFront { addr, kind: k, host: String::new(), path: String::new(), path_type: None, method: None, position: None, tags: f.tags, cert: None, redirect: None });
+            } else {
+                let (k, cert) = match kind {
+                    Some(0) => (0u8, None),
+                    Some(1) => {
+                        // needs a certificate: its own or the listener's default
+                        let listener_default = listeners.iter().find(|l| l.addr == addr_idx).and_then(|l| l.default_cert);
+                        match (f.cert, listener_default) {
+                            (Some(c), _) => (1, Some(c)),
+                            (None, Some(_)) => (1, None),
+                            (None, None) => continue,
+                        }
+                    }
+                    Some(_) => continue, // tcp/udp address: invalid for an http cluster
+                    None => match f.cert {
+                        Some(c) => (1, Some(c)),
+                        None => (0, None),
+                    },
+                };
+                let host = HOSTS[f.host].to_string();
+                let path = PATHS[f.path].to_string();
+                let pt = f.path_type.unwrap_or(0);
+                let key = format!("{k};{addr};{host};{pt}{path};{:?}", f.method);
+                if !used_keys.insert(key) {
+                    continue; // duplicate route key: an operator error, not generated in valid files
+                }
+                if declared.is_none() {
+                    implicit.insert(addr.clone(), k);
+                }
+                fronts.push(RFront {
+                    addr,
+                    kind: k,
+                    host,
+                    path,
+                    path_type: f.path_type,
+                    method: f.method.clone(),
+                    position: f.position,
+                    tags: f.tags,
+                    cert,
+                    redirect: f.redirect,
+                });
+            }
+        }
+        // backends unique on (id, address) within the cluster; explicit ids unique
+        let mut bseen = BTreeSet::new();
+        let mut backends = vec![];
+        for b in &c.backends {
+            let a = format!("10.9.0.{}:{}", b.ip_last, b.port);
+            if bseen.insert((b.id.clone(), a)) {
+                backends.push(b.clone());
+            }
+        }
+        clusters.push((c.clone(), fronts, backends));
+    }
+    Resolved { listeners, clusters, implicit }
+}
+
+// ------------------------------------------------------------------ TOML printer
+
+fn q(s: &str) -> String {
+    format!("\"{}\"", s.replace('\\', "\\\\").replace('"', "\\\""))
+}
+
+fn cert_path(i: usize, ext: &str) -> String {
+    format!("/verif/fixtures/certs/{}.{}", certs::BANK[i].id, ext)
+}
+
+fn render(case: &Case, r: &Resolved, scratch: &str) -> String {
+    let mut t = String::new();
+    t.push_str(&format!("command_socket = \"{scratch}/sozu.sock\"\n"));
+    t.push_str("log_level = \"error\"\nlog_target = \"stdout\"\nworker_count = 1\n");
+    let mut buffer_size = case.buffer_size;
+    if case.break_with == 2 {
+        buffer_size = Some(16000);
+    }
+    if let Some(b) = buffer_size {
+        t.push_str(&format!("buffer_size = {b}\n"));
+    }
+    if let Some(a) = case.activate {
+        t.push_str(&format!("activate_listeners = {a}\n"));
+    }
+    let protos = ["http", "https", "tcp", "udp"];
+    for (i, l) in r.listeners.iter().enumerate() {
+        t.push_str("\n[[listeners]]\n");
+        let proto = if case.break_with == 1 && i == 0 { "quic" } else { protos[l.proto as usize] };
+        t.push_str(&format!("protocol = {}\naddress = {}\n", q(proto), q(ADDRS[l.addr])));
+        if let Some(v) = l.expect_proxy {
+            t.push_str(&format!("expect_proxy = {v}\n"));
+        }
+        if let Some(v) = l.front_timeout {
+            t.push_str(&format!("front_timeout = {v}\n"));
+        }
+        if let Some(v) = l.back_timeout {
+            t.push_str(&format!("back_timeout = {v}\n"));
+        }
+        if let Some(v) = &l.sticky_name {
+            t.push_str(&format!("sticky_name = {}\n", q(v)));
+        }
+        if let Some(v) = &l.alpn {
+            t.push_str(&format!("alpn_protocols = [{}]\n", v.iter().map(|s| q(s)).collect::<Vec<_>>().join(", ")));
+        }
+        if let Some(c) = l.default_cert {
+            t.push_str(&format!("certificate = {}\nkey = {}\n", q(&cert_path(c, "pem")), q(&cert_path(c, "key"))));
+        }
+        if case.break_with == 5 && i == 0 && l.proto == 0 {
+            t.push_str("[listeners.hsts]\nenabled = true\nmax_age = 1000\n");
+        }
+    }
+    if case.break_with == 3 {
+        // duplicate listener address
+        if let Some(l) = r.listeners.first() {
+            t.push_str(&format!("\n[[listeners]]\nprotocol = \"tcp\"\naddress = {}\n", q(ADDRS[l.addr])));
+        }
+    }
+    let lbs = ["ROUND_ROBIN", "RANDOM", "LEAST_LOADED", "POWER_OF_TWO", "HRW", "MAGLEV"];
+    let pts = ["PREFIX", "REGEX", "EQUALS"];
+    let poss = ["PRE", "POST", "TREE"];
+    let reds = ["forward", "permanent", "unauthorized"];
+    t.push_str("\n[clusters]\n");
+    for (ci, (c, fronts, backends)) in r.clusters.iter().enumerate() {
+        t.push_str(&format!("\n[clusters.cl{ci}]\n"));
+        t.push_str(&format!("protocol = {}\nload_balancing = {}\n", q(if c.tcp { "tcp" } else { "http" }), q(lbs[c.lb as usize])));
+        if !c.tcp {
+            if let Some(v) = c.sticky_session {
+                t.push_str(&format!("sticky_session = {v}\n"));
+            }
+            if let Some(v) = c.https_redirect {
+                t.push_str(&format!("https_redirect = {v}\n"));
+            }
+            if let Some(v) = c.http2 {
+                t.push_str(&format!("http2 = {v}\n"));
+            }
+        } else if let Some(v) = c.send_proxy {
+            t.push_str(&format!("send_proxy = {v}\n"));
+        }
+        let mut fs = vec![];
+        for f in fronts {
+            let mut s = format!("address = {}", q(&f.addr));
+            if !c.tcp {
+                s.push_str(&format!(", hostname = {}", q(&f.host)));
+                if !f.path.is_empty() || f.path_type.is_some() {
+                    s.push_str(&format!(", path = {}", q(&f.path)));
+                }
+                if let Some(pt) = f.path_type {
+                    s.push_str(&format!(", path_type = {}", q(pts[pt as usize])));
+                }
+                if let Some(m) = &f.method {
+                    s.push_str(&format!(", method = {}", q(m)));
+                }
+                if let Some(p) = f.position {
+                    s.push_str(&format!(", position = {}", q(poss[p as usize])));
+                }
+                if let Some(c) = f.cert {
+                    s.push_str(&format!(", certificate = {}, key = {}", q(&cert_path(c, "pem")), q(&cert_path(c, "key"))));
+                }
+                if let Some(rd) = f.redirect {
+                    s.push_str(&format!(", redirect = {}", q(reds[rd as usize])));
+                }
+            }
+            if f.tags {
+                s.push_str(", tags = { owner = \"me\", tier = \"x\" }");
+            }
+            fs.push(format!("  {{ {s} }}"));
+        }
+        if case.break_with == 4 && ci == 0 {
+            // an http cluster frontend on a tcp listener address / a tcp cluster frontend on an http address
+            if let Some(l) = r.listeners.iter().find(|l| if c.tcp { l.proto <= 1 } else { l.proto >= 2 }) {
+                if c.tcp {
+                    fs.push(format!("  {{ address = {} }}", q(ADDRS[l.addr])));
+                } else {
+                    fs.push(format!("  {{ address = {}, hostname = \"bad.x.com\" }}", q(ADDRS[l.addr])));
+                }
+            }
+        }
+        if case.break_with == 6 && ci == 0 && !c.tcp {
+            // certificate on a plain-http listener's frontend
+            if let Some(l) = r.listeners.iter().find(|l| l.proto == 0) {
+                fs.push(format!(
+                    "  {{ address = {}, hostname = \"bad.x.com\", certificate = {}, key = {} }}",
+                    q(ADDRS[l.addr]),
+                    q(&cert_path(0, "pem")),
+                    q(&cert_path(0, "key"))
+                ));
+            }
+        }
+        if case.break_with == 7 && ci == 0 && !c.tcp {
+            // frontend on an https listener without any certificate
+            if let Some(l) = r.listeners.iter().find(|l| l.proto == 1 && l.default_cert.is_none()) {
+                fs.push(format!("  {{ address = {}, hostname = \"bad.x.com\" }}", q(ADDRS[l.addr])));
+            }
+        }
+        t.push_str(&format!("frontends = [\n{}\n]\n", fs.join(",\n")));
+        let mut bs = vec![];
+        for b in backends {
+            let mut s = format!("address = \"10.9.0.{}:{}\"", b.ip_last, b.port);
+            if let Some(id) = &b.id {
+                s.push_str(&format!(", backend_id = {}", q(id)));
+            }
+            if let Some(w) = b.weight {
+                s.push_str(&format!(", weight = {w}"));
+            }
+            if let Some(st) = &b.sticky {
+                s.push_str(&format!(", sticky_id = {}", q(st)));
+            }
+            if let Some(bk) = b.backup {
+                s.push_str(&format!(", backup = {bk}"));
+            }
+            bs.push(format!("  {{ {s} }}"));
+        }
+        t.push_str(&format!("backends = [\n{}\n]\n", bs.join(",\n")));
+    }
+    t
+}
+
+/// Did the requested neighbour actually get rendered into the file (it needs a suitable object)?
+fn neighbour_applies(case: &Case, r: &Resolved) -> bool {
+    match case.break_with {
+        0 => false,
+        1 => !r.listeners.is_empty(),
+        2 => {
+            r.listeners.iter().any(|l| l.proto == 1 && l.alpn.as_ref().map(|a| a.iter().any(|p| p == "h2")).unwrap_or(true))
+                || r.implicit.values().any(|k| *k == 1) // an implied https listener advertises the default ALPN (h2)
+        }
+        3 => !r.listeners.is_empty(),
+        4 => r.clusters.first().map(|(c, _, _)| r.listeners.iter().any(|l| if c.tcp { l.proto <= 1 } else { l.proto >= 2 })).unwrap_or(false),
+        5 => r.listeners.first().map(|l| l.proto == 0).unwrap_or(false),
+        6 => r.clusters.first().map(|(c, _, _)| !c.tcp).unwrap_or(false) && r.listeners.iter().any(|l| l.proto == 0),
+        7 => r.clusters.first().map(|(c, _, _)| !c.tcp).unwrap_or(false) && r.listeners.iter().any(|l| l.proto == 1 && l.default_cert.is_none()),
+        _ => false,
+    }
+}
+
+fn neighbour_name(b: u8) -> &'static str {
+    match b {
+        1 => "unknown-listener-protocol",
+        2 => "h2-with-small-buffer",
+        3 => "duplicate-listener-address",
+        4 => "frontend-on-listener-of-other-protocol",
+        5 => "hsts-on-plain-http-listener",
+        6 => "certificate-on-plain-http-frontend",
+        7 => "https-frontend-without-certificate",
+        _ => "valid",
+    }
+}
+
+// ------------------------------------------------------------------ the check
+
+pub fn check(case: &Case) -> CheckResult {
+    let mut rep = CaseReport::default();
+    let r = resolve(case);
+    let scratch = engine::shard::scratch_dir();
+    let mut file = tempfile::Builder::new().prefix("c20-").suffix(".toml").tempfile_in(&scratch).expect("tempfile");
+    let toml = render(case, &r, scratch.to_str().unwrap());
+    file.write_all(toml.as_bytes()).expect("write toml");
+    file.flush().expect("flush");
+    let path = file.path().to_str().unwrap().to_string();
+
+    let loaded = Config::load_from_path(&path);
+
+    if case.break_with != 0 && neighbour_applies(case, &r) {
+        rep.class(format!("invalid:{}", neighbour_name(case.break_with)));
+        rep.nontrivial = true;
+        return match loaded {
+            Err(_) => Ok(rep),
+            Ok(_) => Err(engine::Failure::new(
+                format!("C20/invalid-file-accepted:{}", neighbour_name(case.break_with)),
+                format!("a file violating '{}' was accepted at load time:\n{}", neighbour_name(case.break_with), engine::truncate(&toml, 1500)),
+            )),
+        };
+    }
+
+    let config = match loaded {
+        Ok(c) => c,
+        Err(e) => fail!("C20/valid-file-rejected", "a well-formed file was rejected: {e}\n{}", engine::truncate(&toml, 2000)),
+    };
+    let messages = match config.generate_config_messages() {
+        Ok(m) => m,
+        Err(e) => fail!("C20/message-generation-failed", "generate_config_messages failed: {e}"),
+    };
+    // request ids are unique
+    let mut ids = BTreeSet::new();
+    for m in &messages {
+        if !ids.insert(m.id.clone()) {
+            fail!("C20/duplicate-request-id", "request id {} is used twice among {} messages", m.id, messages.len());
+        }
+    }
+    let mut state = ConfigState::new();
+    for (i, m) in messages.iter().enumerate() {
+        if let Err(e) = state.dispatch(&m.content) {
+            fail!(
+                format!("C20/generated-message-rejected:{}", cmd::verb(&m.content)),
+                "message #{i}/{} ({}) generated from an accepted file is rejected by a fresh instance: {e}: {}",
+                messages.len(),
+                cmd::verb(&m.content),
+                engine::truncate(&format!("{:?}", m.content), 500)
+            );
+        }
+    }
+
+    // ---- expected objects, computed from the abstract configuration
+    let activate = case.activate.unwrap_or(true);
+    let sa = |s: &str| s.parse::<std::net::SocketAddr>().unwrap();
+    let mut exp_listeners: BTreeMap<(u8, String), Option<&Listener>> = BTreeMap::new();
+    for l in &r.listeners {
+        exp_listeners.insert((l.proto, ADDRS[l.addr].to_string()), Some(l));
+    }
+    for (a, k) in &r.implicit {
+        exp_listeners.insert((*k, a.clone()), None);
+    }
+    let got_listeners: BTreeSet<(u8, String)> = state
+        .http_listeners
+        .keys()
+        .map(|a| (0u8, a.to_string()))
+        .chain(state.https_listeners.keys().map(|a| (1u8, a.to_string())))
+        .chain(state.tcp_listeners.keys().map(|a| (2u8, a.to_string())))
+        .chain(state.udp_listeners.keys().map(|a| (3u8, a.to_string())))
+        .collect();
+    let want_listeners: BTreeSet<(u8, String)> = exp_listeners.keys().map(|(k, a)| (*k, sa(a).to_string())).collect();
+    if got_listeners != want_listeners {
+        fail!(
+            "C20/listeners-differ",
+            "listeners in the resulting configuration {:?} differ from the declared (+ implied by frontends) {:?}",
+            got_listeners,
+            want_listeners
+        );
+    }
+    for ((k, a), l) in &exp_listeners {
+        let addr = sa(a);
+        let (active, ft, bt, ep, sticky) = match k {
+            0 => {
+                let x = &state.http_listeners[&addr];
+                (x.active, x.front_timeout, x.back_timeout, Some(x.expect_proxy), Some(x.sticky_name.clone()))
+            }
+            1 => {
+                let x = &state.https_listeners[&addr];
+                (x.active, x.front_timeout, x.back_timeout, Some(x.expect_proxy), Some(x.sticky_name.clone()))
+            }
+            2 => {
+                let x = &state.tcp_listeners[&addr];
+                (x.active, x.front_timeout, x.back_timeout, Some(x.expect_proxy), None)
+            }
+            _ => {
+                let x = &state.udp_listeners[&addr];
+                (x.active, x.front_timeout, x.back_timeout, None, None)
+            }
+        };
+        if active != activate {
+            fail!("C20/listener-activation", "listener {a} active={active}, file says activate_listeners={activate} (absent = true)");
+        }
+        if let Some(l) = l {
+            let dft = if *k == 3 { 30 } else { 60 };
+            let want_ft = l.front_timeout.unwrap_or(dft);
+            let want_bt = l.back_timeout.unwrap_or(30);
+            if ft != want_ft || bt != want_bt {
+                fail!("C20/listener-timeouts", "listener {a}: front/back timeout {ft}/{bt}, declared (or documented default) {want_ft}/{want_bt}");
+            }
+            if let Some(ep) = ep {
+                if ep != l.expect_proxy.unwrap_or(false) {
+                    fail!("C20/listener-expect-proxy", "listener {a}: expect_proxy {ep}, declared {:?}", l.expect_proxy);
+                }
+            }
+            if let Some(s) = sticky {
+                let want = l.sticky_name.clone().unwrap_or_else(|| "SOZUBALANCEID".to_string());
+                if s != want {
+                    fail!("C20/listener-sticky-name", "listener {a}: sticky_name {s}, declared/default {want}");
+                }
+            }
+            if *k == 1 {
+                let x = &state.https_listeners[&addr];
+                let want: Vec<String> = l.alpn.clone().unwrap_or_else(|| vec!["h2".into(), "http/1.1".into()]);
+                if x.alpn_protocols != want {
+                    fail!("C20/listener-alpn", "listener {a}: alpn {:?}, declared/default {:?}", x.alpn_protocols, want);
+                }
+            }
+        }
+    }
+
+    // clusters
+    if state.clusters.len() != r.clusters.len() {
+        fail!("C20/cluster-count", "{} clusters in the result, {} declared", state.clusters.len(), r.clusters.len());
+    }
+    let mut want_http: BTreeSet<String> = BTreeSet::new();
+    let mut want_https: BTreeSet<String> = BTreeSet::new();
+    let mut want_certs: BTreeSet<(String, String)> = BTreeSet::new();
+    for (ci, (c, fronts, backends)) in r.clusters.iter().enumerate() {
+        let id = format!("cl{ci}");
+        let Some(got) = state.clusters.get(&id) else {
+            fail!("C20/cluster-missing", "declared cluster {id} is not in the resulting configuration");
+        };
+        if got.load_balancing != c.lb as i32 {
+            fail!("C20/cluster-field", "cluster {id}: load_balancing {} declared {}", got.load_balancing, c.lb);
+        }
+        if !c.tcp {
+            if got.sticky_session != c.sticky_session.unwrap_or(false) || got.https_redirect != c.https_redirect.unwrap_or(false) || got.http2 != c.http2 {
+                fail!("C20/cluster-field", "cluster {id}: sticky/https_redirect/http2 = {}/{}/{:?}, declared {:?}/{:?}/{:?}", got.sticky_session, got.https_redirect, got.http2, c.sticky_session, c.https_redirect, c.http2);
+            }
+        }
+        // backends
+        let got_b = state.backends.get(&id).cloned().unwrap_or_default();
+        if got_b.len() != backends.len() {
+            fail!("C20/backend-count", "cluster {id}: {} backends in the result, {} declared", got_b.len(), backends.len());
+        }
+        for (bi, b) in backends.iter().enumerate() {
+            let addr = sa(&format!("10.9.0.{}:{}", b.ip_last, b.port));
+            let want_id = b.id.clone().unwrap_or_else(|| format!("{id}-{bi}-{addr}"));
+            let Some(g) = got_b.iter().find(|g| g.backend_id == want_id && g.address == addr) else {
+                fail!("C20/backend-missing", "cluster {id}: declared backend {want_id}@{addr} is not in the result: {:?}", got_b);
+            };
+            let w = g.load_balancing_parameters.map(|p| p.weight);
+            if w != Some(b.weight.unwrap_or(100) as i32) || g.sticky_id != b.sticky || g.backup != b.backup {
+                fail!("C20/backend-field", "backend {want_id}@{addr}: weight/sticky/backup {:?}/{:?}/{:?}, declared {:?}/{:?}/{:?} (weight default 100)", w, g.sticky_id, g.backup, b.weight, b.sticky, b.backup);
+            }
+        }
+        // frontends
+        let mut want_tcp = 0usize;
+        let mut want_udp = 0usize;
+        for f in fronts {
+            match f.kind {
+                2 => want_tcp += 1,
+                3 => want_udp += 1,
+                _ => {
+                    let addr = sa(&f.addr);
+                    let pt = f.path_type.unwrap_or(0);
+                    let key = format!("{};{};{}{}{}", addr, f.host, ["P", "R", "="][pt as usize], f.path, f.method.as_ref().map(|m| format!(";{m}")).unwrap_or_default());
+                    let map = if f.kind == 0 { &state.http_fronts } else { &state.https_fronts };
+                    let Some(g) = map.get(&key) else {
+                        fail!(
+                            "C20/frontend-missing",
+                            "declared {} frontend {key} of cluster {id} is not in the result (keys: {:?})",
+                            if f.kind == 0 { "http" } else { "https" },
+                            map.keys().take(12).collect::<Vec<_>>()
+                        );
+                    };
+                    // `position` absent: doc/configure.md is silent, the proto annotation says TREE,
+                    // the file loader applies PRE. Per DESIGN §4 C20 a doc/annotation disagreement is
+                    // logged (class below), not failed: both are admitted when the field is absent.
+                    let got_pos = format!("{:?}", g.position);
+                    let want_pos = match f.position {
+                        Some(0) => "Pre",
+                        Some(1) => "Post",
+                        Some(_) => "Tree",
+                        None => {
+                            if got_pos == "Pre" {
+                                rep.class("absent_position_loaded_as_PRE");
+                                "Pre"
+                            } else {
+                                "Tree"
+                            }
+                        }
+                    };
+                    if g.cluster_id.as_deref() != Some(id.as_str()) || got_pos != want_pos || g.tags.clone().unwrap_or_default().len() != if f.tags { 2 } else { 0 } {
+                        fail!("C20/frontend-field", "frontend {key}: cluster/position/tags = {:?}/{:?}/{:?}, declared {id}/{want_pos}/{}", g.cluster_id, g.position, g.tags, f.tags);
+                    }
+                    let want_red = f.redirect.filter(|_| true).map(|x| x as i32);
+                    if g.redirect.unwrap_or(0) != want_red.unwrap_or(0) {
+                        fail!("C20/frontend-field", "frontend {key}: redirect {:?}, declared {:?}", g.redirect, f.redirect);
+                    }
+                    if f.kind == 0 {
+                        want_http.insert(key);
+                    } else {
+                        want_https.insert(key);
+                        let fp = match f.cert {
+                            Some(c) => certs::BANK[c].fingerprint.to_string(),
+                            None => {
+                                let l = r.listeners.iter().find(|l| ADDRS[l.addr] == f.addr).and_then(|l| l.default_cert);
+                                certs::BANK[l.expect("https frontend without certificate was kept")].fingerprint.to_string()
+                            }
+                        };
+                        want_certs.insert((addr.to_string(), fp));
+                    }
+                }
+            }
+        }
+        let got_tcp = state.tcp_fronts.get(&id).map(|v| v.len()).unwrap_or(0);
+        let got_udp = state.udp_fronts.get(&id).map(|v| v.len()).unwrap_or(0);
+        if got_tcp != want_tcp || got_udp != want_udp {
+            fail!("C20/tcp-udp-frontend-count", "cluster {id}: {got_tcp} tcp / {got_udp} udp frontends in the result, {want_tcp} / {want_udp} declared");
+        }
+    }
+    let got_http: BTreeSet<String> = state.http_fronts.keys().cloned().collect();
+    let got_https: BTreeSet<String> = state.https_fronts.keys().cloned().collect();
+    if got_http != want_http || got_https != want_https {
+        fail!(
+            "C20/frontend-set",
+            "frontends in the result differ from the declared ones: extra http {:?}, extra https {:?}",
+            got_http.difference(&want_http).collect::<Vec<_>>(),
+            got_https.difference(&want_https).collect::<Vec<_>>()
+        );
+    }
+    let got_certs: BTreeSet<(String, String)> = state
+        .certificates
+        .iter()
+        .flat_map(|(a, m)| m.keys().map(move |fp| (a.to_string(), fp.to_string())))
+        .collect();
+    if got_certs != want_certs {
+        fail!(
+            "C20/certificate-set",
+            "certificates in the result {:?} differ from the declared ones {:?}",
+            got_certs,
+            want_certs
+        );
+    }
+
+    // ---- reload idempotence: the same messages applied again (errors skipped, as load_static_config does)
+    let before = projection(&state, true);
+    let mut reloaded = state.clone();
+    for m in &messages {
+        let _ = reloaded.dispatch(&m.content);
+    }
+    if let Some(d) = first_diff(&before, &projection(&reloaded, true)) {
+        fail!("C20/reload-not-idempotent", "loading the same file over the state it produced changed the configuration (left = before): {d}");
+    }
+    let delta: Vec<Request> = state.diff(&reloaded);
+    if !delta.is_empty() {
+        fail!("C20/reload-diff-not-empty", "diff between the state and its reload has {} requests, first {:?}", delta.len(), cmd::verb(&delta[0]));
+    }
+
+    let kinds: BTreeSet<u8> = exp_listeners.keys().map(|(k, _)| *k).collect();
+    let ipv6 = exp_listeners.keys().any(|(_, a)| a.starts_with('['));
+    rep.nontrivial = kinds.len() >= 3 || messages.len() >= 200 || ipv6;
+    rep.class("valid");
+    rep.class_if(kinds.len() >= 3, "3+_listener_kinds");
+    rep.class_if(messages.len() > 255, "256+_messages");
+    rep.class_if(messages.len() > 511, "512+_messages");
+    rep.class_if(ipv6, "ipv6_listener");
+    rep.class_if(!r.implicit.is_empty(), "implicit_listener");
+    rep.class_if(!want_certs.is_empty(), "has_certificates");
+    rep.class_if(r.clusters.iter().any(|(c, f, _)| c.tcp && !f.is_empty()), "tcp_cluster_with_frontend");
+    rep.inner_evaluations = messages.len() as u64;
+    Ok(rep)
+}
+
+pub fn run(args: &Args) -> i32 {
+    let mut ev = Evidence::new(args, "exploration");
+    ev.rule(
+        "loader",
+        "abstract configuration (0..5 listeners of the four protocols over IPv4/IPv6 addresses, 0..60 clusters http/tcp, 0..12 frontends and 0..10 backends each, optional fields present or absent, path kinds, positions, methods, tags, certificates from the fixture bank, sizes crossing 255/256/512 generated messages), made valid by construction, printed to TOML by the harness's own printer; 30% of the cases carry one constraint-violating neighbour. Valid file: load_from_path Ok, generate_config_messages Ok with unique ids, every message accepted by a fresh ConfigState, and listeners/clusters/frontends/backends/certificates equal the declared ones with the documented defaults; reload is idempotent and diff(state, reload) is empty. Invalid neighbour: load_from_path is Err. Non-trivial: >= 3 listener kinds or >= 200 messages or an IPv6 listener, or an invalid neighbour that applies; distinct by case hash.",
+    );
+    ev.assume("a frontend whose address has no declared listener implies a listener of the matching protocol (the loader's documented legacy behaviour), so that shape is a valid file, not a rejected one");
+    ev.assume("duplicate route keys / duplicate backends inside one file are operator errors and are not generated in valid files");
+    ev.floor("loader", "valid", 0.4);
+    ev.floor("loader", "256+_messages", 0.01);
+    let cases = args.cases(1_500, 40_000);
+    engine::with_quiet_stdout(|| engine::run_pbt(&mut ev, args, "loader", cases, strategy, check));
+    ev.finish()
 }
